@@ -819,8 +819,9 @@ func (sp *StreamParser) ExecCmd(cb RdbObjExecutor) {
 					args = append(args, fields[j], lp.Next())
 				}
 			} else {
-				numFields = lp.NextInteger()
-				for j := int64(0); j < numFields; j++ {
+				// this entry has its own fields, the master entry's count must be kept for the following SAMEFIELDS entries
+				entryNumFields := lp.NextInteger()
+				for j := int64(0); j < entryNumFields; j++ {
 					args = append(args, lp.Next(), lp.Next())
 				}
 			}
